@@ -433,6 +433,7 @@ WAKE_TABLE = {
 
 def rule_wakeups(ctx):
     """R-C10-5."""
+    shared.check_reattach_wakes_deferred(ctx, "a step that is pending, attached, needed, safe and ready stays parked as deferred after its input was reattached: the build phase ends with an eligible step")
     shared.check_built_notifies(ctx, "a parked (deferred) consumer of a revalidated output is never woken: it satisfies every dispatch condition yet the build phase ends with it pending")
     b = ctx.prog.func("builder.Builder._task_done")
     ctx.check(any(ast.unparse(c.func) == "self.wake_job_loop.set" for c in calls_in(b.node)), b.fq, "task completion wakes the job loop", "a finished task no longer wakes job_loop", "wake_job_loop.set()")
